@@ -376,7 +376,6 @@ func c14Menu(withFaults bool) []c14Req {
 // ---------------------------------------------------------------------------
 // World: model stores + real witnesses + monitor.
 
-type c14Violation struct{ msg string }
 
 type c14Resp struct {
 	Thread string
@@ -828,14 +827,14 @@ func (w *c14World) judge(p *c14Pending, resp c14Resp) {
 			}
 			v := c14Model(p.facts, rec)
 			exp := fmt.Sprintf("%v when %s is on record (%v)", v.allowedList(), rec.canon(), v.Defects)
-			if containsStr(v.Defects, "old!=recorded") {
+			if c14Contains(v.Defects, "old!=recorded") {
 				exp += fmt.Sprintf(" with body %q", fmt.Sprintf("%d\n", rec.N))
 			}
 			want = append(want, exp)
 			if !v.Allowed[resp.Status] {
 				continue
 			}
-			if resp.Status == 409 && resp.Body != fmt.Sprintf("%d\n", rec.N) && containsStr(v.Defects, "old!=recorded") {
+			if resp.Status == 409 && resp.Body != fmt.Sprintf("%d\n", rec.N) && c14Contains(v.Defects, "old!=recorded") {
 				continue
 			}
 			ok = true
@@ -913,7 +912,7 @@ func (w *c14World) judge(p *c14Pending, resp c14Resp) {
 	w.cosigned = append(w.cosigned, r.CP)
 }
 
-func containsStr(xs []string, x string) bool {
+func c14Contains(xs []string, x string) bool {
 	for _, y := range xs {
 		if y == x {
 			return true
